@@ -10,7 +10,7 @@
    The readers (read_quoted, read_until, read_bracketed, read_shell_word, mime_decode) are reference
    specifications written here, not code of /repo.  cstr s = the bytes of s before the first NUL (the functions
    take C strings); bytes_ok s = every element is below 256. *)
-Require Import SquidV.Bytes SquidV.QuoteModel SquidV.QuoteProofs SquidV.PagelogModel SquidV.PagelogProofs.
+Require Import SquidV.Bytes SquidV.QuoteModel SquidV.PagelogModel SquidV.PagelogProofs.
 Require Import SquidV.gen.ByteMaps_gen SquidV.gen.LogQuote_gen.
 Local Open Scope N_scope.
 
@@ -60,15 +60,15 @@ Theorem C34_mime_blob_bracket_delimited : forall s rest, bytes_ok s ->
   read_bracketed (mime_blob s ++ 93 :: rest) = Some (cstr s, rest).
 Proof. exact mime_bracket_delimited. Qed.
 
-(* URL style and the default style: delimited by the next space; URL style is undone by rfc1738_unescape
-   (C31's theorem; the default style keeps percent signs and is not injective, C31 finding rfc1738-percent-kept) *)
+(* URL style and the default style: delimited by the next space; URL style is undone by percent-decoding
+   (pct_decode: structural RFC 3986 decoder; that Squid's rfc1738_unescape computes it on escaped strings is C31's
+   theorem); the default style keeps percent signs and is not injective (C31 finding rfc1738-percent-kept) *)
 Theorem C34_url_space_delimited : forall s rest, read_until 32 (url_quote s ++ 32 :: rest) = Some (url_quote s, rest).
 Proof. exact url_delimited. Qed.
 Theorem C34_default_space_delimited : forall s rest,
   read_until 32 (default_quote s ++ 32 :: rest) = Some (default_quote s, rest).
 Proof. exact default_delimited. Qed.
-Theorem C34_url_reversible : forall s, bytes_ok s ->
-  unescaped_to (rfc1738_unescape (url_quote s ++ [0])) (cstr s) (lenN (url_quote s)).
+Theorem C34_url_reversible : forall s, bytes_ok s -> pct_decode (url_quote s) = Some (cstr s).
 Proof. exact url_reversible. Qed.
 
 (* shell style: a word, quoted when it contains a space *)
